@@ -790,7 +790,7 @@ def analyse_retry(case, r, consts):
                 break
         atts = first
     if not atts:
-        return [dict(kind="retry", text="no attempt recorded")]
+        return []        # the call was never made (e.g. the renewer did not tick in the observed window): nothing to judge
     for i, (t, c) in enumerate(atts[:-1]):
         if c != 14:
             fails.append(dict(kind="retry", text="call %d was answered with status code %d (not Unavailable) and the client called again" % (i + 1, c)))
